@@ -945,9 +945,14 @@ class Table:
         # Read through OUR backend rather than pyarrow's S3 filesystem (#54).
         with data_file_manager.open_parquet_source(data_file.file_path) as src:
             if compute_expr is not None:
-                # pyarrow applies `filters` against all needed columns during the
-                # scan and returns only `columns`, so pushdown is correct here.
-                return pq.read_table(src, columns=columns, filters=compute_expr)
+                # Decode, filter, THEN project - exactly like the verified path.
+                # `pq.read_table(filters=...)` prunes row groups by their min/max
+                # statistics, which exclude NaN: `x != v` on a row group with
+                # min == max == v was dropped although its NaN rows match.
+                table = pq.read_table(src).filter(compute_expr)
+                if columns is not None:
+                    table = table.select(columns)
+                return table
             return pq.read_table(src, columns=columns)
 
     def _scan_table(
